@@ -527,10 +527,16 @@ func vfDiscRunCase(p *vfDiscProvider, cs *vfDiscCase) {
 
 	if cs.Direct {
 		ru.t = vfDiscBare(client)
-		vfDiscInitialize(ru.t, url) // synchronous: returns when the code stops trying
-		cs.Returned = true
+		doneCh := make(chan struct{})
+		go func() { vfDiscInitialize(ru.t, url); close(doneCh) }() // synchronous in the code: returns when it stops trying
+		select {
+		case <-doneCh:
+			cs.Returned = true
+		case <-time.After(wait + 2*time.Second): // still trying (or stuck) long after the bound: recorded as "did not get ready"
+			cs.Note = "initializeMetadata had not returned when the harness stopped waiting"
+		}
 		cs.WaitedMs = int(time.Since(start) / time.Millisecond)
-		if vfDiscReady(ru.t) {
+		if cs.Returned && vfDiscReady(ru.t) {
 			cs.ReadyMs = cs.WaitedMs
 		}
 	} else {
